@@ -299,3 +299,23 @@ PROPS["C16"] = {
         {"test": "^TestTargetBitrateBounded$", "checks": 600, "shards": 15, "timeout": 1800},
     ],
 }
+
+PROPS["C13"] = {
+    "pkg": "c13",
+    "technique": "metamorphic property-based testing: the same generated history replayed with fresh and with reused-and-scribbled caller buffers must produce identical emissions (thorough: also under the race detector)",
+    "level_text": "For each of 12 subjects (NACK responder with/without RTX, FlexFEC, pacing interceptor, GCC leaky-bucket pacer, packet dumper sender/receiver, stats, jitter-buffer "
+                  "interceptor, TWCC sender, rtpfb) a generated packet history is run twice: once allocating per call, once reusing one header object, payload slice and read buffer that are "
+                  "overwritten the moment each call returns; retransmissions, FEC, paced packets, dump bytes, reports and statistics must be identical, and the payload handed to Write unchanged. Exploration.",
+    "level_note": "trusts: the sinks' deep copies taken at emission time; values that depend on the wall clock or on a random sequencer (RTX sequence numbers, departure and arrival stamps) are masked; "
+                  "DisableCopy and direct JitterBuffer.Push are the documented exceptions and are not exercised",
+    "assumptions": ["a pacer that does not drain within 10 s makes the case inconclusive"],
+    "quick": [
+        {"test": "^TestRegress", "timeout": 200},
+        {"test": "^TestCallerBuffersNotRetained$", "checks": 24, "shards": 10, "timeout": 600},
+    ],
+    "thorough": [
+        {"test": "^TestRegress", "timeout": 200},
+        {"test": "^TestCallerBuffersNotRetained$", "checks": 300, "shards": 10, "timeout": 1800},
+        {"test": "^TestCallerBuffersNotRetained$", "checks": 60, "shards": 6, "race": True, "timeout": 1800},
+    ],
+}
